@@ -4,7 +4,7 @@ import json
 import os
 from binascii import hexlify, unhexlify
 from time import time
-from typing import TYPE_CHECKING, cast
+from typing import TYPE_CHECKING, Any, cast
 
 from ...bootstrapping.dispersy.bootstrapper import DispersyBootstrapper
 from ...community import Community, CommunitySettings
@@ -128,12 +128,12 @@ class IdentityCommunity(Community):
         return None
 
     @staticmethod
-    def _same_metadata(presented: dict, registered: dict) -> bool:
+    def _same_json(presented: Any, registered: Any) -> bool:  # noqa: ANN401
         """
-        Whether two metadata dictionaries serialize to the same JSON text.
+        Whether two values (a name, a metadata dictionary) serialize to the same JSON text.
 
         Plain equality is too lenient: in Python True == 1 == 1.0, but they are written as true, 1 and 1.0.
-        Metadata that cannot be serialized matches nothing.
+        A value that cannot be serialized matches nothing.
         """
         try:
             return json.dumps(presented, sort_keys=True) == json.dumps(registered, sort_keys=True)
@@ -164,13 +164,12 @@ class IdentityCommunity(Community):
         if time() > self.known_attestation_hashes[attribute_hash][1] + 300:
             self.logger.debug("Not signing %s, timed out!", str(metadata))
             return False
-        if transaction["name"] != self.known_attestation_hashes[attribute_hash][0]:
+        if not self._same_json(transaction["name"], self.known_attestation_hashes[attribute_hash][0]):
             self.logger.debug("Not signing %s, name does not match!", str(metadata))
             return False
         if (self.known_attestation_hashes[attribute_hash][3] is not None
-                and not self._same_metadata({k: v for k, v in transaction.items()
-                                             if k not in ["name", "date", "schema"]},
-                                            self.known_attestation_hashes[attribute_hash][3])):
+                and not self._same_json({k: v for k, v in transaction.items() if k not in ["name", "date", "schema"]},
+                                        self.known_attestation_hashes[attribute_hash][3])):
             self.logger.debug("Not signing %s, metadata does not match!", str(metadata))
             return False
         if metadata.get_hash() in self.attested_metadata:
